@@ -963,6 +963,7 @@ def run_check(ctx, prop):
         tlc_runs.append({'config': name, 'distinct_states': r.distinct, 'transitions': r.states, 'depth': r.depth, 'wall_s': round(r.wall, 1),
                          'edges_emitted': len(edges)})
         for a, n in r.coverage.items():
+            a = a.split('@')[0]
             cov[a] = cov.get(a, 0) + n
         if emit:
             if len(edges) < 100:
